@@ -114,6 +114,8 @@ struct Codec {
     std::function<QByteArray(const QDomElement &)> parseAndSerialize;
     // serialization of a default-constructed object of the class (own output form with every optional field absent); may be null
     std::function<QByteArray()> defaultOutput;
+    // the class is a verbatim container (QXmppElement): its output must be the input tree
+    bool identity = false;
 };
 
 // ---- serialization helpers -----------------------------------------------------------------------------------------
@@ -255,6 +257,7 @@ inline std::vector<Codec> buildTable()
     t.push_back({ "QXmppElement", { "QXmppElement" }, false, false,
                   [](const QDomElement &) { return true; },
                   [](const QDomElement &e) { return ser(QXmppElement(e)); } });
+    t.back().identity = true;
     t.push_back(untyped<QXmppResultSetQuery>("QXmppResultSetQuery", { "QXmppResultSetQuery" }));
     t.push_back(untyped<QXmppResultSetReply>("QXmppResultSetReply", { "QXmppResultSetReply" }));
     t.push_back(untyped<QXmppMucItem>("QXmppMucItem", { "QXmppMucItem" }));
